@@ -289,3 +289,35 @@ func VerifHarness_C08_contracts() {
 	verifrt.Assert(got == want, "C08.contracts.relevant-iff-subscribed-and-contract-wide-action")
 	verifrt.Reach("C08.contracts.done")
 }
+
+// VerifHarness_C08_malformed_envelope: contract subscription on; an output script that starts like
+// a Tokenized envelope (OP_FALSE OP_RETURN, the version 1 envelope marker push; version 0 headers are protobuf, which is opaque to the engine) and continues with up to w
+// arbitrary bytes, then ends.  Such a script is too short to be a complete envelope, so the real
+// decoder (envelope parser of the dependency, run unmodified) has to refuse it; the filter must
+// not crash on it and must not call it relevant.
+func VerifHarness_C08_malformed_envelope() {
+	ctx := context.Background()
+	node := &Node{}
+	node.config.IsTest = true
+	node.SubscribeContracts(ctx)
+	w := 3
+	if verifrt.Thorough() {
+		w = 4
+	}
+	n := verifrt.Choose("tail.len", w+1)
+	heads := [][]byte{
+		{0x00, 0x6a, 0x02, 0xbd, 0x01}, // envelope version 1
+	}
+	head := heads[verifrt.Choose("envelope", len(heads))]
+	script := append(append([]byte{}, head...), verifrt.Bytes("tail", n)...)
+	tx := wire.NewMsgTx(1)
+	tx.AddTxOut(wire.NewTxOut(1, bitcoin.Script(script)))
+	var got bool
+	panicked, what := verifrt.Catch(func() { got = node.IsRelevant(ctx, tx) })
+	verifrt.Note("envelope head %x + %d bytes: panic=%v %s relevant=%v", head, n, panicked, what, got)
+	verifrt.Sig("malformed-envelope", verifrt.PanicSite(), what)
+	verifrt.Assert(!panicked, "C08.contracts.malformed-envelope-never-crashes-the-filter")
+	verifrt.Sig("malformed-envelope", "relevant")
+	verifrt.Assert(!got, "C08.contracts.incomplete-envelope-is-not-relevant")
+	verifrt.Reach("C08.malformed-envelope.done")
+}
